@@ -36,7 +36,13 @@ SolOn(q) == ToSet(R.sols[q][1])
 SolKeys(q) == ToSet(R.sols[q][2])
 AnyValid == \E a \in SUBSET K : Valid(a)
 NoRaise == Clause("NoRaise", ~Case \/ Good)
+\* the model - terms AND bookkeeping (variables, mapping, degree, ...) - is as before the call
 ArgUnchanged == Clause("ArgUnchanged", ~Case \/ R.unchanged)
+\* a second identical call, made after the caller scribbled into the first result, returns what the first call returned
+SecondCallSame == Clause("SecondCallSame", ~(Case /\ Good) \/ R.second_same)
+\* the labels the reported assignments range over: every mentioned label for a plain dict; for a model object whose
+\* bookkeeping is stale anything between the variables of the function and model.variables (the same for all of them)
+KS == IF R.kind = "dict" \/ Len(R.sols) = 0 THEN K ELSE SolKeys(1)
 \* no valid assignment <=> objective None.  For a model without variables the statement's other sentence applies ("a
 \* constant model yields the constant with an empty assignment", the code does not consult `valid` there), so the two
 \* sentences are only judged where they do not compete.
@@ -44,6 +50,7 @@ NoneIffNoValid == Clause("NoneIffNoValid", ~(Case /\ Good /\ K # {}) \/ (HasObj 
 \* the reported solutions are valid, attain the objective, and range over exactly the model's variables
 SolutionsOK == Clause("SolutionsOK", ~(Case /\ Good /\ HasObj /\ K # {}) \/
     /\ Len(R.sols) >= 1
+    /\ \A q \in 1..Len(R.sols) : SolKeys(q) = KS
     /\ \A q \in 1..Len(R.sols) : /\ SolOn(q) \subseteq SolKeys(q)
                                  /\ VarsOf(M) \subseteq SolKeys(q) /\ SolKeys(q) \subseteq K
                                  /\ Valid(SolOn(q)) /\ Value(SolOn(q)) = Obj)
@@ -54,5 +61,5 @@ ConstantModel == Clause("ConstantModel", ~(Case /\ Good /\ K = {}) \/ (HasObj /\
 \* per assignment: nothing valid lies below the objective; with all_solutions every valid minimiser is reported
 IsMinimum == Clause("IsMinimum", ~(Point /\ Good /\ K # {}) \/ (Valid(x) => (HasObj /\ Value(x) >= Obj)))
 AllMinimisers == Clause("AllMinimisers", ~(Point /\ Good /\ R.all /\ HasObj) \/
-    ((Valid(x) /\ Value(x) = Obj) => \E q \in 1..Len(R.sols) : SolOn(q) = x /\ SolKeys(q) = K))
+    ((Valid(x) /\ Value(x) = Obj) => \E q \in 1..Len(R.sols) : SolOn(q) = x \cap KS /\ SolKeys(q) = KS))
 =============================================================================
